@@ -123,7 +123,11 @@ func genCalls(g *hc.Gen, sep string, ordExpr string) []gcall {
 	lits := []value.Primary{value.NewInteger(1), value.NewNull(), value.NewString("x"), value.NewTernary(ternary.UNKNOWN), value.NewTernary(ternary.TRUE), value.NewFloat(2.5), value.NewInteger(0)}
 	// always: the two COUNT special cases and one call of every kind of path
 	add("COUNT", false, 0, "*", nil)
+	add("COUNT", true, 0, "*", nil) // COUNT(DISTINCT *): still the number of records
 	add("COUNT", g.Intn(2) == 0, 0, "", lits[g.Intn(len(lits))])
+	// DISTINCT over a literal removes the duplicates like over any expression (finding F109)
+	add("COUNT", true, 0, "", lits[g.Intn(len(lits))])
+	add("SUM", true, 0, "", []value.Primary{value.NewInteger(1), value.NewFloat(2.5), value.NewInteger(0), value.NewNull()}[g.Intn(4)])
 	add("COUNT", g.Intn(2) == 0, 0, "", nil)
 	for k := 0; k < 5; k++ {
 		fn := sqlAggFns[g.Intn(len(sqlAggFns))]
